@@ -311,6 +311,8 @@ def bounded_index(n, fam, seen=None):
         return "literal %d" % v
     if F.is_call(n, *LEN_CALLS):
         return "len() of an in-memory sequence"
+    if F.is_call(n, "core::char::methods::<impl char>::len_utf8", "std::char::methods::<impl char>::len_utf8"):
+        return "width of a char in bytes (<= 4)"
     # `<iter>.find(..)?.0` / `<iter>.next()?.0`: the index component of a char_indices()/enumerate() item
     if n.get("k") == "Field" and n.get("name") == "0" and FL.try_operand(F.strip(n["e"])) is not None:
         r_ = payload_is_index(n["e"], [("field", "0")], fam, seen)
